@@ -143,7 +143,12 @@ fn gen_event(rng: &mut Rng, cols: u16, rows: u16) -> KEv {
     }
 }
 
-pub const INVALID_CLI: [&[&str]; 18] = [
+pub const INVALID_CLI: [&[&str]; 20] = [
+    // values that are only wrong because of what the file system holds: a log folder below a
+    // regular file (the scenario file in the child's working directory), or where nothing can be
+    // created. Refusing them is an ordinary error (exit 1 or 2 with a message), not a panic.
+    &["--lat=35.0", "--long=-80.0", "--log-folder=scenario.json/logs"],
+    &["--lat=35.0", "--long=-80.0", "--log-folder=/proc/no-such-dir/logs"],
     &["--lat=35.0", "--long=-80.0", "--port=abc"],
     &["--lat=35.0", "--long=-80.0", "--port=70000"],
     &["--lat=abc", "--long=-80.0"],
@@ -504,6 +509,8 @@ pub fn execute(sc: &K17) -> Outcome {
         out.probe("invalid_command_line_judged");
         if let Some(loc) = panic_location(&run.stderr) {
             out.violate(format!("C17:invalid-option-value-panics:{loc}"), format!("radar {:?} panicked instead of reporting a usage error (exit status {:?})\nstderr:\n{}", cli, run.code, run.stderr.lines().take(6).collect::<Vec<_>>().join("\n")));
+        } else if cli.iter().any(|a| a.starts_with("--log-folder=")) && run.code == Some(1) && run.stderr.to_lowercase().contains("error") {
+            // an environment problem reported as an error
         } else if run.code != Some(2) {
             out.violate(format!("C17:invalid-option-value-exit-status:{:?}", run.code), format!("radar {:?} exited with {:?}, a usage error is exit status 2\nstderr:\n{}", cli, run.code, run.stderr.lines().take(6).collect::<Vec<_>>().join("\n")));
         } else if !run.stderr.to_lowercase().contains("usage") && !run.stderr.contains("error:") {
